@@ -181,47 +181,150 @@ theorem lookOK_encSelfFields (D : Defaults) (fs : Fields) (vs : List Val)
   have := lookOK_enc D fs vs [] h (fun _ _ => rfl)
   simpa using this
 
+/-! ## typing that does not look at `#[serde(skip)]` fields
+
+The codecs never read or write the value of a `skip` field, so the self-describing round trip
+holds of every value that is well typed EXCEPT possibly inside `skip` fields (`fitsW`).  This is
+what makes the second round trip unconditional in the `Default` impls. -/
+
+mutual
+def fitsW : Ty → Val → Bool
+  | .atom _, .atom _ => true
+  | .unit, .unit => true
+  | .opt _, .none => true
+  | .opt t, .some v => fitsW t v
+  | .seq t, .seq vs => vs.all (fitsW t)
+  | .map _ t, .seq es => es.all (fun e => match e with
+      | .tuple [.atom _, v] => fitsW t v
+      | _ => false)
+  | .tuple ts, .tuple vs => fitsWTys ts vs
+  | .newtype _ t, v => fitsW t v
+  | .struct _ fs, .tuple vs => fitsWFields fs vs
+  | .enum _ vs, .variant i v => fitsWVariant vs i v
+  | _, _ => false
+def fitsWTys : Tys → List Val → Bool
+  | .nil, [] => true
+  | .cons t r, v :: vs => fitsW t v && fitsWTys r vs
+  | _, _ => false
+def fitsWFields : Fields → List Val → Bool
+  | .nil, [] => true
+  | .cons a t r, v :: vs => (a.skip || fitsW t v) && fitsWFields r vs
+  | _, _ => false
+def fitsWVariant : Variants → Nat → Val → Bool
+  | .nil, _, _ => false
+  | .unit _ _, 0, v => v == .unit
+  | .newtype _ t _, 0, v => fitsW t v
+  | .unit _ r, i + 1, v => fitsWVariant r i v
+  | .newtype _ _ r, i + 1, v => fitsWVariant r i v
+end
+
+mutual
+theorem fits_fitsW : ∀ (t : Ty) (v : Val), fits t v = true → fitsW t v = true
+  | .atom _, v, h => by cases v <;> simp [fits] at h; simp [fitsW]
+  | .unit, v, h => by cases v <;> simp [fits] at h; simp [fitsW]
+  | .opt t, v, h => by
+      cases v with
+      | none => simp [fitsW]
+      | some v => simp only [fits] at h; simp only [fitsW]; exact fits_fitsW t v h
+      | _ => simp [fits] at h
+  | .seq t, v, h => by
+      cases v with
+      | seq vs =>
+        simp only [fits, List.all_eq_true] at h
+        simp only [fitsW, List.all_eq_true]
+        exact fun w hw => fits_fitsW t w (h w hw)
+      | _ => simp [fits] at h
+  | .map _ t, v, h => by
+      cases v with
+      | seq es =>
+        simp only [fits, List.all_eq_true] at h
+        simp only [fitsW, List.all_eq_true]
+        intro e he
+        obtain ⟨k, w, rfl, hf⟩ := entry_shape _ e (h e he)
+        exact fits_fitsW t w hf
+      | _ => simp [fits] at h
+  | .tuple ts, v, h => by
+      cases v with
+      | tuple vs => simp only [fits] at h; simp only [fitsW]; exact fitsTys_fitsW ts vs h
+      | _ => simp [fits] at h
+  | .newtype _ t, v, h => by simp only [fits] at h; simp only [fitsW]; exact fits_fitsW t v h
+  | .struct _ fs, v, h => by
+      cases v with
+      | tuple vs => simp only [fits] at h; simp only [fitsW]; exact fitsFields_fitsW fs vs h
+      | _ => simp [fits] at h
+  | .enum _ vs, v, h => by
+      cases v with
+      | variant i v => simp only [fits] at h; simp only [fitsW]; exact fitsVariant_fitsW vs i v h
+      | _ => simp [fits] at h
+theorem fitsTys_fitsW : ∀ (ts : Tys) (vs : List Val), fitsTys ts vs = true →
+    fitsWTys ts vs = true
+  | .nil, vs, h => by cases vs <;> simp [fitsTys] at h; simp [fitsWTys]
+  | .cons _ _, [], h => by simp [fitsTys] at h
+  | .cons t r, v :: vs, h => by
+      simp only [fitsTys, Bool.and_eq_true] at h
+      simp only [fitsWTys, Bool.and_eq_true]
+      exact ⟨fits_fitsW t v h.1, fitsTys_fitsW r vs h.2⟩
+theorem fitsFields_fitsW : ∀ (fs : Fields) (vs : List Val), fitsFields fs vs = true →
+    fitsWFields fs vs = true
+  | .nil, vs, h => by cases vs <;> simp [fitsFields] at h; simp [fitsWFields]
+  | .cons _ _ _, [], h => by simp [fitsFields] at h
+  | .cons a t r, v :: vs, h => by
+      simp only [fitsFields, Bool.and_eq_true] at h
+      simp only [fitsWFields, Bool.and_eq_true, Bool.or_eq_true]
+      exact ⟨Or.inr (fits_fitsW t v h.1), fitsFields_fitsW r vs h.2⟩
+theorem fitsVariant_fitsW : ∀ (vs : Variants) (i : Nat) (v : Val), fitsVariant vs i v = true →
+    fitsWVariant vs i v = true
+  | .nil, _, _, h => by simp [fitsVariant] at h
+  | .unit _ _, 0, _, h => by simpa [fitsVariant, fitsWVariant] using h
+  | .newtype _ t _, 0, v, h => by
+      simp only [fitsVariant] at h; simp only [fitsWVariant]; exact fits_fitsW t v h
+  | .unit _ r, i + 1, v, h => by
+      simp only [fitsVariant] at h; simp only [fitsWVariant]; exact fitsVariant_fitsW r i v h
+  | .newtype _ _ r, i + 1, v, h => by
+      simp only [fitsVariant] at h; simp only [fitsWVariant]; exact fitsVariant_fitsW r i v h
+end
+
 /-! ## shape of an encoded enum value; non-nullable types never encode to `null` -/
 
 theorem encVariant_shape (D : Defaults) :
-    ∀ (vs : Variants) (i : Nat) (v : Val), fitsVariant vs i v = true →
+    ∀ (vs : Variants) (i : Nat) (v : Val), fitsWVariant vs i v = true →
       (∃ n, n ∈ variantNames vs ∧ encSelfVariant D vs i v = .atom n) ∨
       (∃ n p, n ∈ variantNames vs ∧ encSelfVariant D vs i v = .obj [(n, p)])
-  | .nil, _, _, h => by simp [fitsVariant] at h
+  | .nil, _, _, h => by simp [fitsWVariant] at h
   | .unit n _, 0, _, _ => Or.inl ⟨n, by simp [variantNames], by simp [encSelfVariant]⟩
   | .newtype n t _, 0, v, _ =>
       Or.inr ⟨n, encSelf D t v, by simp [variantNames], by simp [encSelfVariant]⟩
   | .unit _ r, i + 1, v, h => by
-      simp only [fitsVariant] at h
+      simp only [fitsWVariant] at h
       simp only [encSelfVariant, variantNames]
       rcases encVariant_shape D r i v h with ⟨n, hn, e⟩ | ⟨n, p, hn, e⟩
       · exact Or.inl ⟨n, by simp [hn], e⟩
       · exact Or.inr ⟨n, p, by simp [hn], e⟩
   | .newtype _ _ r, i + 1, v, h => by
-      simp only [fitsVariant] at h
+      simp only [fitsWVariant] at h
       simp only [encSelfVariant, variantNames]
       rcases encVariant_shape D r i v h with ⟨n, hn, e⟩ | ⟨n, p, hn, e⟩
       · exact Or.inl ⟨n, by simp [hn], e⟩
       · exact Or.inr ⟨n, p, by simp [hn], e⟩
 
 theorem enc_ne_null (D : Defaults) :
-    ∀ (t : Ty) (v : Val), nullable t = false → fits t v = true → encSelf D t v ≠ .null
-  | .atom _, v, _, h => by cases v <;> simp [fits, encSelf] at h ⊢
+    ∀ (t : Ty) (v : Val), nullable t = false → fitsW t v = true → encSelf D t v ≠ .null
+  | .atom _, v, _, h => by cases v <;> simp [fitsW, encSelf] at h ⊢
   | .unit, _, hn, _ => by simp [nullable] at hn
   | .opt _, _, hn, _ => by simp [nullable] at hn
-  | .seq _, v, _, h => by cases v <;> simp [fits, encSelf] at h ⊢
-  | .map _ _, v, _, h => by cases v <;> simp [fits, encSelf] at h ⊢
-  | .tuple _, v, _, h => by cases v <;> simp [fits, encSelf] at h ⊢
+  | .seq _, v, _, h => by cases v <;> simp [fitsW, encSelf] at h ⊢
+  | .map _ _, v, _, h => by cases v <;> simp [fitsW, encSelf] at h ⊢
+  | .tuple _, v, _, h => by cases v <;> simp [fitsW, encSelf] at h ⊢
   | .newtype _ t, v, hn, h => by
-      simp only [nullable] at hn; simp only [fits] at h; simp only [encSelf]
+      simp only [nullable] at hn; simp only [fitsW] at h; simp only [encSelf]
       exact enc_ne_null D t v hn h
-  | .struct _ _, v, _, h => by cases v <;> simp [fits, encSelf] at h ⊢
+  | .struct _ _, v, _, h => by cases v <;> simp [fitsW, encSelf] at h ⊢
   | .enum _ vs, v, _, h => by
       cases v with
       | variant i v =>
-        simp only [fits] at h; simp only [encSelf]
+        simp only [fitsW] at h; simp only [encSelf]
         rcases encVariant_shape D vs i v h with ⟨n, _, e⟩ | ⟨n, p, _, e⟩ <;> simp [e]
-      | _ => simp [fits] at h
+      | _ => simp [fitsW] at h
 
 theorem decSelf_opt_of_ne_null (D : Defaults) (t : Ty) (s : SVal) (h : s ≠ .null) :
     decSelf D (.opt t) s = (decSelf D t s).map .some := by
@@ -254,112 +357,113 @@ theorem missing_of_hit (D : Defaults) (a : FieldAttr) (t : Ty) (v : Val)
 /-! ## (1) the self-describing round trip -/
 
 mutual
-theorem selfRT (D : Defaults) : ∀ (t : Ty) (v : Val), wf t = true → fits t v = true →
+theorem selfRTW (D : Defaults) : ∀ (t : Ty) (v : Val), wf t = true → fitsW t v = true →
     decSelf D t (encSelf D t v) = some (norm D t v)
-  | .atom _, v, _, h => by cases v <;> simp [fits] at h; simp [encSelf, decSelf, norm]
-  | .unit, v, _, h => by cases v <;> simp [fits] at h; simp [encSelf, decSelf, norm]
+  | .atom _, v, _, h => by cases v <;> simp [fitsW] at h; simp [encSelf, decSelf, norm]
+  | .unit, v, _, h => by cases v <;> simp [fitsW] at h; simp [encSelf, decSelf, norm]
   | .opt t, v, hw, h => by
       cases v with
       | none => simp [encSelf, decSelf, norm]
       | some v =>
         simp only [wf, Bool.and_eq_true, Bool.not_eq_true'] at hw
-        simp only [fits] at h
+        simp only [fitsW] at h
         simp only [encSelf, norm]
-        rw [decSelf_opt_of_ne_null D t _ (enc_ne_null D t v hw.1 h), selfRT D t v hw.2 h]; rfl
-      | _ => simp [fits] at h
+        rw [decSelf_opt_of_ne_null D t _ (enc_ne_null D t v hw.1 h), selfRTW D t v hw.2 h]; rfl
+      | _ => simp [fitsW] at h
   | .seq t, v, hw, h => by
       cases v with
       | seq vs =>
         simp only [wf] at hw
-        simp only [fits, List.all_eq_true] at h
+        simp only [fitsW, List.all_eq_true] at h
         simp only [encSelf, decSelf, norm]
         rw [mapM_map_some (decSelf D t) (encSelf D t) (norm D t) vs
-          (fun v hv => selfRT D t v hw (h v hv))]; rfl
-      | _ => simp [fits] at h
+          (fun v hv => selfRTW D t v hw (h v hv))]; rfl
+      | _ => simp [fitsW] at h
   | .map _ t, v, hw, h => by
       cases v with
       | seq es =>
         simp only [wf] at hw
-        simp only [fits, List.all_eq_true] at h
+        simp only [fitsW, List.all_eq_true] at h
         simp only [encSelf, decSelf, norm]
         rw [mapM_map_some _ _ (fun e => match e with
           | .tuple [.atom k, v] => Val.tuple [.atom k, norm D t v]
           | e => e) es ?_]; rfl
         intro e he
         obtain ⟨k, v, rfl, hf⟩ := entry_shape _ e (h e he)
-        simp [selfRT D t v hw hf]
-      | _ => simp [fits] at h
+        simp [selfRTW D t v hw hf]
+      | _ => simp [fitsW] at h
   | .tuple ts, v, hw, h => by
       cases v with
       | tuple vs =>
-        simp only [wf] at hw; simp only [fits] at h
+        simp only [wf] at hw; simp only [fitsW] at h
         simp only [encSelf, decSelf, norm]
-        rw [selfRTTys D ts vs hw h]; rfl
-      | _ => simp [fits] at h
+        rw [selfRTWTys D ts vs hw h]; rfl
+      | _ => simp [fitsW] at h
   | .newtype _ t, v, hw, h => by
-      simp only [wf] at hw; simp only [fits] at h
-      simp only [encSelf, decSelf, norm]; exact selfRT D t v hw h
+      simp only [wf] at hw; simp only [fitsW] at h
+      simp only [encSelf, decSelf, norm]; exact selfRTW D t v hw h
   | .struct _ fs, v, hw, h => by
       cases v with
       | tuple vs =>
-        simp only [wf, Bool.and_eq_true] at hw; simp only [fits] at h
+        simp only [wf, Bool.and_eq_true] at hw; simp only [fitsW] at h
         simp only [encSelf, decSelf, norm]
-        rw [selfRTFields D fs vs _ hw.1 h (lookOK_encSelfFields D fs vs hw.2)]; rfl
-      | _ => simp [fits] at h
+        rw [selfRTWFields D fs vs _ hw.1 h (lookOK_encSelfFields D fs vs hw.2)]; rfl
+      | _ => simp [fitsW] at h
   | .enum _ vs, v, hw, h => by
       cases v with
       | variant i v =>
-        simp only [wf, Bool.and_eq_true] at hw; simp only [fits] at h
+        simp only [wf, Bool.and_eq_true] at hw; simp only [fitsW] at h
         simp only [encSelf, decSelf, norm]
-        rw [selfRTVariant D vs i v 0 hw.1 hw.2 h]; simp
-      | _ => simp [fits] at h
-theorem selfRTTys (D : Defaults) : ∀ (ts : Tys) (vs : List Val), wfTys ts = true →
-    fitsTys ts vs = true → decSelfTys D ts (encSelfTys D ts vs) = some (normTys D ts vs)
+        rw [selfRTWVariant D vs i v 0 hw.1 hw.2 h]; simp
+      | _ => simp [fitsW] at h
+theorem selfRTWTys (D : Defaults) : ∀ (ts : Tys) (vs : List Val), wfTys ts = true →
+    fitsWTys ts vs = true → decSelfTys D ts (encSelfTys D ts vs) = some (normTys D ts vs)
   | .nil, vs, _, h => by
-      cases vs <;> simp [fitsTys] at h; simp [encSelfTys, decSelfTys, normTys]
+      cases vs <;> simp [fitsWTys] at h; simp [encSelfTys, decSelfTys, normTys]
   | .cons t r, vs, hw, h => by
       cases vs with
-      | nil => simp [fitsTys] at h
+      | nil => simp [fitsWTys] at h
       | cons v vs =>
-        simp only [wfTys, Bool.and_eq_true] at hw; simp only [fitsTys, Bool.and_eq_true] at h
-        simp only [encSelfTys, decSelfTys, normTys, selfRT D t v hw.1 h.1,
-          selfRTTys D r vs hw.2 h.2]
-theorem selfRTFields (D : Defaults) : ∀ (fs : Fields) (vs : List Val) (l : List (String × SVal)),
-    wfFields fs = true → fitsFields fs vs = true → lookOK D l fs vs →
+        simp only [wfTys, Bool.and_eq_true] at hw; simp only [fitsWTys, Bool.and_eq_true] at h
+        simp only [encSelfTys, decSelfTys, normTys, selfRTW D t v hw.1 h.1,
+          selfRTWTys D r vs hw.2 h.2]
+theorem selfRTWFields (D : Defaults) : ∀ (fs : Fields) (vs : List Val) (l : List (String × SVal)),
+    wfFields fs = true → fitsWFields fs vs = true → lookOK D l fs vs →
     decSelfFields D fs l = some (normFields D fs vs)
   | .nil, vs, l, _, h, _ => by
-      cases vs <;> simp [fitsFields] at h; simp [decSelfFields, normFields]
+      cases vs <;> simp [fitsWFields] at h; simp [decSelfFields, normFields]
   | .cons a t r, vs, l, hw, h, hl => by
       cases vs with
-      | nil => simp [fitsFields] at h
+      | nil => simp [fitsWFields] at h
       | cons v vs =>
         simp only [wfFields, Bool.and_eq_true] at hw
-        simp only [fitsFields, Bool.and_eq_true] at h
+        simp only [fitsWFields, Bool.and_eq_true] at h
         simp only [lookOK] at hl
-        have ih := selfRTFields D r vs l hw.2 h.2 hl.2
+        have ih := selfRTWFields D r vs l hw.2 h.2 hl.2
         simp only [decSelfFields, normFields, ih]
         cases hs : a.skip
         · have hlk := hl.1 hs
+          have hf : fitsW t v = true := by simpa [hs] using h.1
           cases hh : skipHit D a t v
-          · simp [hh] at hlk; simp [hlk, selfRT D t v hw.1.2 h.1]
+          · simp [hh] at hlk; simp [hlk, selfRTW D t v hw.1.2 hf]
           · simp [hh] at hlk; simp [hlk, missing_of_hit D a t v hs hw.1.1 hh]
         · simp
-theorem selfRTVariant (D : Defaults) : ∀ (vs : Variants) (i : Nat) (v : Val) (i0 : Nat),
-    wfVariants vs = true → nodup (variantNames vs) = true → fitsVariant vs i v = true →
+theorem selfRTWVariant (D : Defaults) : ∀ (vs : Variants) (i : Nat) (v : Val) (i0 : Nat),
+    wfVariants vs = true → nodup (variantNames vs) = true → fitsWVariant vs i v = true →
     decSelfVariant D vs i0 (encSelfVariant D vs i v)
       = some (.variant (i0 + i) (normVariant D vs i v))
-  | .nil, _, _, _, _, _, h => by simp [fitsVariant] at h
+  | .nil, _, _, _, _, _, h => by simp [fitsWVariant] at h
   | .unit n r, 0, v, i0, _, _, h => by
-      simp only [fitsVariant] at h
+      simp only [fitsWVariant] at h
       have : v = .unit := by simpa using h
       simp [encSelfVariant, decSelfVariant, normVariant, this]
   | .newtype n t r, 0, v, i0, hw, _, h => by
-      simp only [fitsVariant] at h; simp only [wfVariants, Bool.and_eq_true] at hw
-      simp [encSelfVariant, decSelfVariant, normVariant, selfRT D t v hw.1 h]
+      simp only [fitsWVariant] at h; simp only [wfVariants, Bool.and_eq_true] at hw
+      simp [encSelfVariant, decSelfVariant, normVariant, selfRTW D t v hw.1 h]
   | .unit n r, i + 1, v, i0, hw, hnd, h => by
-      simp only [fitsVariant] at h; simp only [wfVariants] at hw
+      simp only [fitsWVariant] at h; simp only [wfVariants] at hw
       simp only [variantNames] at hnd; rw [nodup_cons] at hnd
-      have ih := selfRTVariant D r i v (i0 + 1) hw hnd.2 h
+      have ih := selfRTWVariant D r i v (i0 + 1) hw hnd.2 h
       simp only [encSelfVariant, normVariant]
       rcases encVariant_shape D r i v h with ⟨m, hm, e⟩ | ⟨m, p, hm, e⟩
       · rw [e] at ih ⊢
@@ -368,9 +472,9 @@ theorem selfRTVariant (D : Defaults) : ∀ (vs : Variants) (i : Nat) (v : Val) (
       · rw [e] at ih ⊢
         simp only [decSelfVariant]; rw [ih, show i0 + 1 + i = i0 + (i + 1) by omega]
   | .newtype n t r, i + 1, v, i0, hw, hnd, h => by
-      simp only [fitsVariant] at h; simp only [wfVariants, Bool.and_eq_true] at hw
+      simp only [fitsWVariant] at h; simp only [wfVariants, Bool.and_eq_true] at hw
       simp only [variantNames] at hnd; rw [nodup_cons] at hnd
-      have ih := selfRTVariant D r i v (i0 + 1) hw.2 hnd.2 h
+      have ih := selfRTWVariant D r i v (i0 + 1) hw.2 hnd.2 h
       simp only [encSelfVariant, normVariant]
       rcases encVariant_shape D r i v h with ⟨m, hm, e⟩ | ⟨m, p, hm, e⟩
       · rw [e] at ih ⊢
@@ -379,6 +483,11 @@ theorem selfRTVariant (D : Defaults) : ∀ (vs : Variants) (i : Nat) (v : Val) (
         have hne : (m == n) = false := by simp; intro e; subst e; exact hnd.1 hm
         simp only [decSelfVariant, hne]; rw [ih, show i0 + 1 + i = i0 + (i + 1) by omega]; simp
 end
+
+/-- (1) for the model's own typing predicate -/
+theorem selfRT (D : Defaults) (t : Ty) (v : Val) (hw : wf t = true) (hf : fits t v = true) :
+    decSelf D t (encSelf D t v) = some (norm D t v) :=
+  selfRTW D t v hw (fits_fitsW t v hf)
 
 /-! ## (2) `norm` is idempotent -/
 
@@ -558,6 +667,103 @@ theorem fitsVariant_norm (D : Defaults) : ∀ (vs : Variants) (i : Nat) (v : Val
       simp only [skipFitVariants, Bool.and_eq_true] at hs; simp only [fitsVariant] at h
       simp only [normVariant, fitsVariant]; exact fitsVariant_norm D r i v hs.2 h
 end
+
+/-! `norm` preserves the `skip`-blind typing, whatever the defaults are -/
+
+mutual
+theorem fitsW_norm (D : Defaults) : ∀ (t : Ty) (v : Val), fitsW t v = true →
+    fitsW t (norm D t v) = true
+  | .atom _, v, h => by cases v <;> simp [fitsW] at h; simp [norm, fitsW]
+  | .unit, v, h => by cases v <;> simp [fitsW] at h; simp [norm, fitsW]
+  | .opt t, v, h => by
+      cases v with
+      | none => simp [norm, fitsW]
+      | some v =>
+        simp only [fitsW] at h
+        simp only [norm, fitsW]; exact fitsW_norm D t v h
+      | _ => simp [fitsW] at h
+  | .seq t, v, h => by
+      cases v with
+      | seq vs =>
+        simp only [fitsW, List.all_eq_true] at h
+        simp only [norm, fitsW, List.all_eq_true, List.mem_map]
+        rintro _ ⟨w, hw, rfl⟩; exact fitsW_norm D t w (h w hw)
+      | _ => simp [fitsW] at h
+  | .map _ t, v, h => by
+      cases v with
+      | seq es =>
+        simp only [fitsW, List.all_eq_true] at h
+        simp only [norm, fitsW, List.all_eq_true, List.mem_map]
+        rintro _ ⟨e, he, rfl⟩
+        obtain ⟨k, w, rfl, hf⟩ := entry_shape _ e (h e he)
+        simp only []
+        exact fitsW_norm D t w hf
+      | _ => simp [fitsW] at h
+  | .tuple ts, v, h => by
+      cases v with
+      | tuple vs =>
+        simp only [fitsW] at h
+        simp only [norm, fitsW]; exact fitsWTys_norm D ts vs h
+      | _ => simp [fitsW] at h
+  | .newtype _ t, v, h => by
+      simp only [fitsW] at h
+      simp only [norm, fitsW]; exact fitsW_norm D t v h
+  | .struct _ fs, v, h => by
+      cases v with
+      | tuple vs =>
+        simp only [fitsW] at h
+        simp only [norm, fitsW]; exact fitsWFields_norm D fs vs h
+      | _ => simp [fitsW] at h
+  | .enum _ vs, v, h => by
+      cases v with
+      | variant i v =>
+        simp only [fitsW] at h
+        simp only [norm, fitsW]; exact fitsWVariant_norm D vs i v h
+      | _ => simp [fitsW] at h
+theorem fitsWTys_norm (D : Defaults) : ∀ (ts : Tys) (vs : List Val),
+    fitsWTys ts vs = true → fitsWTys ts (normTys D ts vs) = true
+  | .nil, vs, h => by cases vs <;> simp [fitsWTys] at h; simp [normTys, fitsWTys]
+  | .cons t r, [], h => by simp [fitsWTys] at h
+  | .cons t r, v :: vs, h => by
+      simp only [fitsWTys, Bool.and_eq_true] at h
+      simp only [normTys, fitsWTys, Bool.and_eq_true]
+      exact ⟨fitsW_norm D t v h.1, fitsWTys_norm D r vs h.2⟩
+theorem fitsWFields_norm (D : Defaults) : ∀ (fs : Fields) (vs : List Val),
+    fitsWFields fs vs = true → fitsWFields fs (normFields D fs vs) = true
+  | .nil, vs, h => by cases vs <;> simp [fitsWFields] at h; simp [normFields, fitsWFields]
+  | .cons a t r, [], h => by simp [fitsWFields] at h
+  | .cons a t r, v :: vs, h => by
+      simp only [fitsWFields, Bool.and_eq_true] at h
+      simp only [normFields, fitsWFields, Bool.and_eq_true]
+      refine ⟨?_, fitsWFields_norm D r vs h.2⟩
+      cases hsk : a.skip
+      · have hf : fitsW t v = true := by simpa [hsk] using h.1
+        simp only [Bool.false_eq_true, if_false, Bool.false_or]
+        split
+        · exact hf
+        · exact fitsW_norm D t v hf
+      · rfl
+theorem fitsWVariant_norm (D : Defaults) : ∀ (vs : Variants) (i : Nat) (v : Val),
+    fitsWVariant vs i v = true → fitsWVariant vs i (normVariant D vs i v) = true
+  | .nil, _, _, h => by simp [fitsWVariant] at h
+  | .unit _ _, 0, _, h => by simpa [normVariant] using h
+  | .newtype _ t _, 0, v, h => by
+      simp only [fitsWVariant] at h
+      simp only [normVariant, fitsWVariant]; exact fitsW_norm D t v h
+  | .unit _ r, i + 1, v, h => by
+      simp only [fitsWVariant] at h
+      simp only [normVariant, fitsWVariant]; exact fitsWVariant_norm D r i v h
+  | .newtype _ _ r, i + 1, v, h => by
+      simp only [fitsWVariant] at h
+      simp only [normVariant, fitsWVariant]; exact fitsWVariant_norm D r i v h
+end
+
+/-- (3), unconditional in the `Default` impls: the second round trip returns exactly what the
+    first load returned -/
+theorem selfRT_second (D : Defaults) (t : Ty) (v : Val) (hw : wf t = true)
+    (hf : fitsW t v = true) : decSelf D t (encSelf D t (norm D t v)) = some (norm D t v) := by
+  have h := selfRTW D t (norm D t v) hw (fitsW_norm D t v hf)
+  rwa [norm_idem] at h
 
 /-! ## (4 ⇐) positional round trip of a value without a hit field -/
 
